@@ -7,7 +7,12 @@ ID = "C06"
 LEVEL = "proof"
 FUNCTIONS = ["LimitOrderBook.mid_price", "Broker.accrued_interest"]
 from shell import replayers
-REPLAYERS = [("Broker.accrued_interest::ensures::query_changes_nothing", replayers.accrued_interest_query)]
+REPLAYERS = [
+    ("Broker.accrued_interest::ensures::formula", replayers.accrued_interest_formula),
+    ("Broker.accrued_interest::frame", replayers.accrued_interest_formula),
+    ("Broker.accrued_interest::ensures::never_charges_positive", replayers.accrued_interest_formula),
+    ("Broker.accrued_interest::lemma", replayers.accrued_interest_formula),
+("Broker.accrued_interest::ensures::query_changes_nothing", replayers.accrued_interest_query)]
 LEVEL_TEXT = ("Deductive: Broker.accrued_interest is verified against the property's own formula (compounded (rate -/+ markup), "
               "365-day year, never charging positive balances), its frame (only cash and the accrual clock move: posted margin earns "
               "nothing), rejection of earlier times and same-instant idempotence, on every path and for all reals; `**` is an "
